@@ -84,37 +84,45 @@ structure ReadSt where
   found : Bool
   processed : List (String × List String)     -- file ↦ patterns that matched it (a Go map)
 
+/-- the files of one pattern in processing order (cleaned, sorted), or the glob error -/
+def patternFiles (w : World) (p : String) : List String × Errs :=
+  match w.glob p with
+  | .ok ms => ((ms.map w.clean).mergeSort AMap.strLe, [])
+  | .error e => ([], ["pattern: " ++ Val.quoteStr p ++ ": " ++ e])
+
+/-- one file of pattern `p` -/
+def readFileStep (w : World) (ind p : String) (acc : List String × Errs × ReadSt) (f : String) :
+    List String × Errs × ReadSt :=
+  match w.read f with
+  | .error es =>
+    (acc.1 ++ [ind ++ "   • " ++ f ++ " " ++ xMark], acc.2.1 ++ Errs.pfx ("`" ++ f ++ "`: ") es, acc.2.2)
+  | .ok doc =>
+    (acc.1 ++ [ind ++ "   • " ++ f ++ " " ++ checkMark], acc.2.1,
+      { input := Input.merge acc.2.2.input doc, found := true,
+        processed := (f, ((acc.2.2.processed.lookup f).getD []) ++ [p]) :: acc.2.2.processed.filter (·.1 != f) })
+
+/-- one pattern -/
+def readPatternStep (w : World) (ind : String) (acc : List String × Errs × ReadSt × Nat) (p : String) :
+    List String × Errs × ReadSt × Nat :=
+  let pf := patternFiles w p
+  let lines := acc.1 ++ [ind ++ toString (acc.2.2.2 + 1) ++ ". " ++ p]
+  let lines := if pf.1.isEmpty then lines ++ [ind ++ "   No files"] else lines
+  let r := pf.1.foldl (readFileStep w ind p) (lines, acc.2.1 ++ pf.2, acc.2.2.1)
+  (r.1, r.2.1, r.2.2, acc.2.2.2 + 1)
+
+/-- files matched by more than one pattern, reported in sorted file order -/
+def dupErrs (processed : List (String × List String)) : Errs :=
+  (AMap.sorted processed).filterMap fun (f, ps) =>
+    if ps.length > 1 then some ("file " ++ Val.quoteStr f ++ " matches more than one pattern: " ++ goStrings ps) else none
+
 /-- `StepReadConfig.Run` -/
 def readConfig (w : World) (ind : String) (i0 : Input.Input) : StepOut Input.Input :=
   if w.patterns.isEmpty then
     { lines := [], errs := ["runner.StepReadConfig: missing file patterns"], st := i0 }
   else
-    let init : List String × Errs × ReadSt := ([ind ++ "Patterns"], [], ⟨i0, false, []⟩)
-    let (lines, errs, rs, _) := w.patterns.foldl (fun (acc : List String × Errs × ReadSt × Nat) p =>
-      let (lines, errs, rs, j) := acc
-      let lines := lines ++ [ind ++ toString (j + 1) ++ ". " ++ p]
-      let (files, gErr) : List String × Errs := match w.glob p with
-        | .ok ms => ((ms.map w.clean).mergeSort AMap.strLe, [])
-        | .error e => ([], ["pattern: " ++ Val.quoteStr p ++ ": " ++ e])
-      let errs := errs ++ gErr
-      let lines := if files.isEmpty then lines ++ [ind ++ "   No files"] else lines
-      let (lines, errs, rs) := files.foldl (fun (acc : List String × Errs × ReadSt) f =>
-        let (lines, errs, rs) := acc
-        match w.read f with
-        | .error es =>
-          (lines ++ [ind ++ "   • " ++ f ++ " " ++ xMark], errs ++ Errs.pfx ("`" ++ f ++ "`: ") es, rs)
-        | .ok doc =>
-          let prev := (rs.processed.lookup f).getD []
-          (lines ++ [ind ++ "   • " ++ f ++ " " ++ checkMark], errs,
-            { input := Input.merge rs.input doc, found := true,
-              processed := (f, prev ++ [p]) :: rs.processed.filter (·.1 != f) }))
-        (lines, errs, rs)
-      (lines, errs, rs, j + 1)) (init.1, init.2.1, init.2.2, 0)
-    let errs := if rs.found then errs else errs ++ ["could not process any files"]
-    -- files matched by more than one pattern, reported in sorted file order
-    let dup := (AMap.sorted rs.processed).filterMap fun (f, ps) =>
-      if ps.length > 1 then some ("file " ++ Val.quoteStr f ++ " matches more than one pattern: " ++ goStrings ps) else none
-    { lines := lines, errs := Errs.pfx "runner.StepReadConfig: " (errs ++ dup), st := rs.input }
+    let r := w.patterns.foldl (readPatternStep w ind) ([ind ++ "Patterns"], [], ⟨i0, false, []⟩, 0)
+    let errs := if r.2.2.1.found then r.2.1 else r.2.1 ++ ["could not process any files"]
+    { lines := r.1, errs := Errs.pfx "runner.StepReadConfig: " (errs ++ dupErrs r.2.2.1.processed), st := r.2.2.1.input }
 
 /-- the four rules of "Validate output" in the wired order, each under its own switch -/
 def validateOutput (w : World) (ind : String) (o : Output.Output) (cycleErrs : Errs) : StepOut Unit :=
